@@ -31,6 +31,7 @@ func checkC20(c *Ctx) {
 	}
 	c20ExampleCollector(c)
 	c20NoShadowedLocals(c)
+	c20MockOnlyWithServices(c)
 	r.Rule("R20d", "example values and table keys are printed quoted", 1)
 	r.Rule("R20e", "example table keys and selector lookup keys have the same format", 1)
 	r.Rule("R20f", "file-independent package-level names in per-file units", 1)
@@ -472,4 +473,58 @@ func c20NoShadowedLocals(c *Ctx) {
 		return
 	}
 	r.OKd("R20l", "no local of the emitted mock code is re-declared in a nested block", "", map[string]any{"functions": nFuncs, "violations": len(bad)})
+}
+
+// c20MockOnlyWithServices — R20m. The mock unit refers to the service interfaces of its file and declares file-independent
+// package-level helpers (R20f); emitted for a file without services it has nothing to implement, its imports are unused and
+// its helpers collide with the mock unit of the service file in the same Go package. go-http's generateFile is explored
+// (every arm of every guard): in no variant in which the file has no services may the mock unit be created.
+func c20MockOnlyWithServices(c *Ctx) {
+	r := c.R
+	r.Rule("R20m", "the mock unit is created only for files that declare services", 1)
+	gf := c.P.Func(pkgHTTP, "Generator.generateFile")
+	if gf == nil {
+		r.Unres("R20m", "httpgen generateFile", "", "not found")
+		return
+	}
+	pos := c.P.Pos(c.P.Decls[gf].Pos())
+	level := 1
+	if c.Thorough() {
+		level = 2
+	}
+	ex := c.Explore(gf, level, 30000)
+	for _, pr := range ex.Problems {
+		r.Unres("R20m", "unmodelled: generateFile", pos, pr)
+	}
+	nNoSvc, nMock := 0, 0
+	bad := ""
+	for _, v := range ex.Variants {
+		noSvc := false
+		for k, val := range v.Dec {
+			if eraseIters(k) == "n:file.Services" && countArms[val] == 0 {
+				noSvc = true
+			}
+		}
+		hasMock := false
+		for _, u := range v.Units {
+			if u.Suffix() == "_http_mock.pb.go" {
+				hasMock = true
+			}
+		}
+		if hasMock {
+			nMock++
+		}
+		if noSvc {
+			nNoSvc++
+			if hasMock && bad == "" {
+				bad = v.DecString()
+			}
+		}
+	}
+	if nNoSvc == 0 || nMock == 0 {
+		r.Undec("R20m", "mock unit wiring in generateFile", pos, fmt.Sprintf("exploration of generateFile produced %d variants without services and %d variants with a mock unit", nNoSvc, nMock))
+		return
+	}
+	r.CheckD(bad == "", "R20m", "go-http generateFile creates *_http_mock.pb.go only when the file declares a service", pos,
+		"with the mock option on, generateFile creates the mock unit for a file without services (decisions {"+bad+"}): the unit's context/proto imports are unused and its package-level helpers (fieldExamples, select*Example, init) are declared again by the service file's mock unit of the same Go package — the package does not build", map[string]any{"variants_without_services": nNoSvc, "variants_with_mock": nMock})
 }
